@@ -39,7 +39,7 @@ impl Prop for C01 {
         let mut units = corpus_units(
             &Space {
                 k: if thorough { 2 } else { 1 },
-                ctx_limit: if thorough { 99 } else { 2 },
+                ctx_limit: if thorough { 3 } else { 2 },
                 layouts: vec![Layout::L0, Layout::LAll, Layout::LNone],
                 style_editions: if thorough { vec![2015, 2024, 2027] } else { vec![2015, 2024] },
                 cfg_mode: if thorough { CfgMode::Dev2 } else { CfgMode::Dev1Relevant },
@@ -49,6 +49,9 @@ impl Prop for C01 {
             },
             None,
         );
+        if thorough {
+            units.retain(super::thorough_economy);
+        }
         if !thorough {
             units.retain(|u| u.cfg.kv.is_empty() || u.key.ends_with("/L0"));
         }
